@@ -296,6 +296,105 @@ def rp_key_rotation(ctx, alg):
                           dict(case, step=lab))
 
 
+def rp_refetch_path(ctx, alg):
+    """The relying party's cached key set does not hold the token's kid (the provider rotated to a NEW kid): the key set is fetched
+    again and the token decoded a second time -- with the same expectations (nonce, client, access token) as the first time.
+    Both the synchronous and the asynchronous client mixins."""
+    import asyncio
+    from authlib.jose import jwt as _jwt
+    from authlib.integrations.base_client.async_openid import AsyncOpenIDMixin
+    priv_a, pub_a, _ = keypair(alg)
+    if alg.startswith("HS"):
+        sign_b = pub_a + "-new"
+        jwk_a = dict(JsonWebKey.import_key(pub_a, {"kty": "oct"}).as_dict(), kid="k1")
+        jwk_b = dict(JsonWebKey.import_key(sign_b, {"kty": "oct"}).as_dict(), kid="k2")
+    else:
+        from cryptography.hazmat.primitives.asymmetric import ec, rsa
+        from cryptography.hazmat.primitives import serialization as ser
+        kb = rsa.generate_private_key(65537, 2048) if alg[:2] in ("RS", "PS") else ec.generate_private_key({"ES256": ec.SECP256R1(), "ES384": ec.SECP384R1(), "ES512": ec.SECP521R1()}[alg])
+        sign_b = kb.private_bytes(ser.Encoding.PEM, ser.PrivateFormat.PKCS8, ser.NoEncryption())
+        jwk_a = dict(JsonWebKey.import_key(pub_a).as_dict(), kid="k1")
+        jwk_b = dict(JsonWebKey.import_key(kb.public_key().public_bytes(ser.Encoding.PEM, ser.PublicFormat.SubjectPublicKeyInfo)).as_dict(), kid="k2")
+    now = int(time.time())
+    at = "access-token-1"
+    claims = {"iss": ISS, "sub": "alice", "aud": ["rp1"], "exp": now + 600, "iat": now, "nonce": "n1", "at_hash": half_hash_ref(at, alg)}
+    tok_b = _jwt.encode({"alg": alg, "kid": "k2"}, claims, sign_b).decode()
+    published = {"keys": [jwk_b]}
+
+    class Resp:
+        def raise_for_status(self):
+            pass
+
+        def json(self):
+            return json.loads(json.dumps(published))
+
+    class Session:
+        def __init__(self, **kw):
+            pass
+
+        def __enter__(self):
+            return self
+
+        def __exit__(self, *a):
+            return False
+
+        async def __aenter__(self):
+            return self
+
+        async def __aexit__(self, *a):
+            return False
+
+        def request(self, method, uri, withhold_token=False):
+            return Resp()
+
+    class ASession(Session):
+        async def request(self, method, uri, withhold_token=False):
+            return Resp()
+
+    def metadata():
+        return {"issuer": ISS, "jwks": {"keys": [jwk_a]}, "jwks_uri": "https://op.example/jwks", "id_token_signing_alg_values_supported": [alg]}
+
+    class SyncRP(OpenIDMixin):
+        client_cls, client_kwargs = Session, {}
+
+        def __init__(self, client_id):
+            self.client_id, self.server_metadata = client_id, metadata()
+
+        def load_server_metadata(self):
+            return self.server_metadata
+
+    class AsyncRP(AsyncOpenIDMixin):
+        client_cls, client_kwargs = ASession, {}
+
+        def __init__(self, client_id):
+            self.client_id, self.server_metadata = client_id, metadata()
+
+        async def load_server_metadata(self):
+            return self.server_metadata
+
+    variants = [("match", "rp1", "n1", at, True), ("nonce", "rp1", "n1x", at, False), ("nonce-prefix", "rp1", "n", at, False), ("client", "rp2", "n1", at, False),
+                ("client-contained", "rp", "n1", at, False), ("access-token", "rp1", "n1", at + "x", False)]
+    for flavour in ("sync", "async"):
+        for lab, client, nonce, atok, want in variants:
+            rp = SyncRP(client) if flavour == "sync" else AsyncRP(client)
+            token = {"id_token": tok_b, "access_token": atok}
+            try:
+                if flavour == "sync":
+                    rp.parse_id_token(token, nonce, leeway=120)
+                else:
+                    asyncio.run(rp.parse_id_token(token, nonce, leeway=120))
+                ok = True
+            except (JoseError, ValueError):
+                ok = False
+            case = {"rp_refetch": alg, "flavour": flavour, "variant": lab}
+            ctx.case(case, ("rp-refetch", alg, flavour, lab), "rp-refetch:%s:%s" % (flavour, lab))
+            ctx.count("rp-refetch:%s:%s:%s" % (flavour, lab, "accept" if ok else "refuse"))
+            if ok != want:
+                ctx.violation("C13:rp-refetch:%s:%s:%s" % (flavour, lab, "accepted" if ok else "refused"),
+                              "after the relying party had to fetch the provider's key set again, an ID Token was %s although %s" %
+                              ("accepted" if ok else "refused", "its %s differs" % lab if not want else "everything matches"), case)
+
+
 def check_combo(ctx, rt, alg, nonce, extra, aud_as_text=False):
     AUD_AS_TEXT[0] = aud_as_text
     try:
@@ -447,6 +546,7 @@ def run(ctx):
     for alg in (ALGS if ctx.tier != "quick" else ["HS256", "RS256", "ES256", "EdDSA"]):
         if alg in ALGS:
             rp_key_rotation(ctx, alg)
+            rp_refetch_path(ctx, alg)
     nonce_sequences(ctx, 60 if ctx.tier == "quick" else 600)
 
 
@@ -457,4 +557,6 @@ def run_case(ctx, case):
         return
     if "rp_key_rotation" in case:
         return rp_key_rotation(ctx, case["rp_key_rotation"])
+    if "rp_refetch" in case:
+        return rp_refetch_path(ctx, case["rp_refetch"])
     check_combo(ctx, case["rt"], case["alg"], case["nonce"], case["extra"], case.get("aud_as_text", False))
